@@ -36,6 +36,7 @@ THEOREMS = [
     "C20.stopped_iff_detached",
     "C20.subject_broadcast_exact",
     "C20.received_in_call_order",
+    "C20.flat_history_closed_form",
     "C20.log_is_received",
     "C20.detached_observer_silent",
     "C20.late_gets_terminal_only",
@@ -455,12 +456,18 @@ ASSUMPTIONS = ["single-threaded call histories (what the property quantifies ove
 LEVEL_TEXT = ("Lean theorems over a small-step model of Subject + per-observer AutoDetachObserver/SingleAssignmentDisposable/InnerSubscription "
               "with an explicit agenda (delivery loops over the snapshot copy, callbacks re-entering the subject): for every configuration reachable by "
               "any history and any reaction scripts (induction over the reachability relation, no bounds) the observer list equals the declaratively "
-              "defined set of observers subscribed at the time, an observer reached by the loop is handed the notification iff it has not been "
-              "unsubscribed/terminated meanwhile, detached observers stay silent forever, late subscribers get exactly the accepted terminal, "
-              "after dispose emitting raises DisposedException and subscribing fails through subscribe's fail path. Tied to the real code by "
-              "differential execution of generated histories (per-observer sequences, exceptions per call) and an independent property-text oracle.")
-LEVEL_NOTE = ("Stated per step of the delivery loop plus invariants over all reachable configurations (not as one closed formula for a whole history). "
+              "defined list of observers subscribed at the time; an observer reached by the loop is handed the notification iff it has not been "
+              "unsubscribed/terminated meanwhile; what an observer was handed is a subsequence of the accepted notifications in call order and no call "
+              "is handed twice; detached observers stay silent forever; late subscribers get exactly the accepted terminal; after dispose emitting raises "
+              "DisposedException and subscribing fails through subscribe's fail path (raised without on_error, delivered with). For flat histories "
+              "(callbacks only record) a closed form: each observer's final log = its own three-state reading of the history. Value-naturality "
+              "(any renaming g commutes with whole runs: None/0/False/'' are ordinary). Tied to the real code by differential execution of generated "
+              "histories (per-observer sequences, exceptions per call and per reacting callback, len(subject.observers) after each call) and an "
+              "independent property-text oracle.")
+LEVEL_NOTE = ("For histories with reactions the exactness statement is per step of the delivery loop plus invariants over all reachable configurations; "
+              "the closed formula for a whole history is proved for reaction-free configurations only (flat_history_closed_form). "
               "Error broadcasts reaching an observer without on_error handler (default_error raises into the emitter and the rest of the loop is skipped) "
               "are modelled and compared but treated as outside the property's quantifier (a raising callback) by the oracle. Re-entrant emission from "
               "callbacks and real thread interleavings are not modelled (single-threaded histories, as the property quantifies). "
-              "User conventions: one subscription per observer id; reaction actions wrapped in try/except.")
+              "User conventions: one subscription per observer id; reaction actions wrapped in try/except. len(subject.observers) is compared with the "
+              "model only (a divergence there alone is reported as a broken correspondence without failing input, not as a property violation).")
